@@ -180,6 +180,9 @@ func decodeStreamTextUnmarshaler(s *Stream, depth int64, unmarshaler encoding.Te
 
 	dst := make([]byte, len(src))
 	copy(dst, src)
+	if s, ok := unquoteBytes(dst); ok {
+		dst = s
+	}
 
 	if err := unmarshaler.UnmarshalText(dst); err != nil {
 		return err
